@@ -20,6 +20,35 @@ for pkgname in ("okdmr.dmrlib.etsi.layer2.elements", "okdmr.dmrlib.etsi.layer3.e
                     ELEMENTS[name] = obj
 
 
+# What an UNDEFINED value of each element decodes to: the member that stands for the range the value lies in (transcribed from
+# the value-range tables of ETSI TS 102 361-1 / -2 / -3 / -4 that the classes cite - "reserved", "manufacturer specific",
+# "reserved for future MFID" ... - independent of the classes' _missing_ code; classes absent here raise on undefined values)
+FOLD = {
+    "ActivityID": [(0, 15, "Reserved")],
+    "AnnouncementType": [(0, 30, "Reserved"), (31, 31, "ManufacturerSpecific")],
+    "DataPacketFormats": [(0, 15, "Reserved")],
+    "DataTypes": [(0, 15, "Reserved")],
+    "DefinedDataFormats": [(0, 63, "Reserved")],
+    "FeatureSetIDs": [(1, 3, "ReservedForFutureStandardization"), (4, 127, "FlydeMicroLtd"), (128, 255, "ReservedForFutureMFID")],  # (first MFID stands for the MFID range)
+    "IPAddressIdentifier": [(0, 12, "Reserved"), (13, 15, "ManufacturerSpecific")],
+    "SAPIdentifier": [(0, 15, "Reserved")],
+    "SLCOs": [(0, 12, "Reserved"), (13, 15, "ManufacturerSelectable")],
+    "UDPPortIdentifier": [(0, 95, "Reserved"), (96, 127, "ManufacturerSpecific")],
+    "UDTFormat": [(8, 9, "ManufacturerSpecific"), (0, 7, "Reserved"), (10, 15, "Reserved")],
+}
+
+
+def fold_clause(vc, cls, element, v, m, defined):
+    """undefined value -> the member of its range (FOLD); defined values are the business of the clause next to this one"""
+    if element not in FOLD:
+        return vc.or_(*[vc.eq(m.value, x.value) for x in cls])
+    ok = []
+    for lo, hi, name in FOLD[element]:
+        inside = vc.and_(v >= lo, v <= hi) if vc.mode == "native" else vc.and_(vc.not_(v < lo), vc.not_(v > hi))
+        ok.append(vc.implies(vc.and_(inside, vc.not_(defined)), vc.eq(m.value, cls[name].value)))
+    return vc.and_(*ok)
+
+
 def width_of(cls):
     from bitarray import bitarray
 
@@ -42,7 +71,7 @@ def enum_total(vc, element, w):
             return
         vc.prove("never_maps_to_nothing", m is not None)
         vc.prove("a_defined_value_maps_to_itself", vc.implies(defined, vc.eq(m.value, v)))
-        vc.prove("an_undefined_value_maps_to_a_defined_reserved_member", vc.or_(*[vc.eq(m.value, x.value) for x in cls]))
+        vc.prove("an_undefined_value_maps_to_the_reserved_member_of_its_range", fold_clause(vc, cls, element, v, m, defined))
         return
     try:
         m = cls.from_bits(bits)
@@ -52,7 +81,7 @@ def enum_total(vc, element, w):
     vc.prove("never_maps_to_nothing", m is not None)
     vc.prove("result_is_a_member_of_the_enumeration", type(m).__name__ == "SymMember" and m._cls is cls or isinstance(m, cls))
     vc.prove("a_defined_value_maps_to_itself", vc.implies(defined, vc.eq(m.value, v)))
-    vc.prove("an_undefined_value_maps_to_a_defined_reserved_member", vc.or_(*[vc.eq(m.value, x.value) for x in cls]))
+    vc.prove("an_undefined_value_maps_to_the_reserved_member_of_its_range", fold_clause(vc, cls, element, v, m, defined))
     back = m.as_bits()
     vc.prove("serialises_to_its_fixed_width", len(back) == w)
     vc.prove("a_defined_value_serialises_to_equal_bits", vc.implies(defined, vc.eq(back, bits)))
